@@ -21,6 +21,7 @@ def handle(ctx, bad, evs, label):
 
 
 def tally(ctx, evs):
+    ctx.tally([e for e in evs if e.get('ev') == 'move'], lambda e: [e.get(k) for k in ('src', 'stores', 'origin', 'leader', 'steps')], lambda e: len(e['steps']) >= 2)
     for e in evs:
         if e.get('ev') == 'move':
             k = e['src']
@@ -51,7 +52,7 @@ def run(ctx):
         bad, evs = ctx.monitor_all('operator+schedule', 'Moves', 'Moves.cfg', tr, 'sched_%d' % sd, timeout=6000)
         handle(ctx, bad, evs, 'sched_%d' % sd)
         tally(ctx, evs)
-    return ctx.finish(level='exploration', rule='Moves.tla executes every recorded operator on the region model of Steps.tla and states the C11 clauses (same number of voters and learners, '
+    return ctx.finish(level='exploration', rule='evaluations = operators produced by scatter and the schedulers; non-trivial = at least two steps, distinct by (producer, stores, origin, leader, steps). Moves.tla executes every recorded operator on the region model of Steps.tla and states the C11 clauses (same number of voters and learners, '
                            'not left in the joint state, one peer per store in every intermediate state, adds only on up stores that do not hold the region, leader '
                            'transfers only to voters on accepting stores, source and target differ); histories of Scatter calls (groups, earlier decisions, '
                            'operators applied or not) on one RegionScatterer, and the schedulers balance-region, balance-leader, shuffle-region, shuffle-leader, '
